@@ -6,7 +6,7 @@ N="$1"; shift
 P=/verif/seeded/$N/patch.diff
 cd /repo || exit 2
 if [ -n "$(git status --porcelain -- mystic | grep -v __info__)" ]; then echo "repo dirty, refusing"; exit 2; fi
-trap 'git -C /repo checkout -- . ' EXIT
+trap 'git -C /repo reset -q --hard HEAD' EXIT
 git apply "$P" 2>/dev/null || git apply --3way "$P" >/dev/null 2>&1 || { echo "MUTANT $N: patch does not apply"; exit 2; }
 cd /verif
 for id in "$@"; do
